@@ -50,6 +50,13 @@ func New(opts Options) *Dir {
 }
 
 func (d *Dir) Write(files map[string][]byte) error {
+	// Every file is written directly into the new version directory
+	for file := range files {
+		if file == "" || file == "." || file == ".." || file != filepath.Base(file) {
+			return fmt.Errorf("invalid file name %q: must be a single path element", file)
+		}
+	}
+
 	newDir := filepath.Join(d.base, fmt.Sprintf("%d-%s", time.Now().UTC().UnixNano(), d.targetDir))
 
 	if err := os.MkdirAll(d.base, os.ModePerm); err != nil {
